@@ -52,11 +52,15 @@ Fixpoint oparams_equal (a b : list param) : bool :=
   | _, _ => false
   end.
 
+(* operatorReturnTypeEqual *)
+Definition oret_equal (a b : ty) : bool :=
+  if deep_generic a || deep_generic b then deep_generic a && deep_generic b else ty_eqb a b.
+
 (* insertOperatorOverload. is_cast: the operator is "als" (also told apart by the return type).
    (table, false) = "bereits überladen": nothing is inserted *)
 Definition insert_overload (is_cast : bool) (table : list odecl) (d : odecl) : list odecl * bool :=
   if existsb (fun o => oparams_equal (od_params o) (od_params d) &&
-                       (negb is_cast || ty_eqb (od_ret o) (od_ret d))) table
+                       (negb is_cast || oret_equal (od_ret o) (od_ret d))) table
   then (table, false)
   else let i := bs_pos table d in (firstn i table ++ d :: skipn i table, true).
 
